@@ -2,7 +2,7 @@
    Only theorem statements here; proofs are in Proofs.v.  Byte strings are lists of N with
    every element < 256 (bytes_ok) and a length that fits `unsigned int`. *)
 From OlaBase Require Import Bytes.
-From C05 Require Import Gen Model Proofs.
+From C05 Require Import Gen Model Proofs Ext Proofs2.
 Local Open Scope N_scope.
 
 (* Side obligations tying the regenerated constants to the numbers the property and the model's
@@ -149,6 +149,129 @@ Proof.
 Qed.
 Print Assumptions c05_match_status.
 
+(* ---- round 2: every API entry point of the anchored files ---------------------------------- *)
+
+(* RDMFrame construction (both constructors): with Options.prepend_start_code the frame data is the
+   start code followed by EXACTLY the supplied bytes, for every byte list (no special case for data
+   that already begins with 0xCC); without it, the supplied bytes.  RDMReply::FromFrame on such a
+   frame therefore decodes exactly the supplied bytes; in particular supplied bytes that begin with
+   the start code are refused with RDM_WRONG_SUB_START_CODE. *)
+Theorem c05_frame_prepend : forall raw rq,
+  mk_frame true raw = START_CODE :: raw /\ mk_frame false raw = raw /\
+  reply_of_raw true rq raw =
+    match raw with [] => Reject RDM_INVALID_RESPONSE | _ => inflate_response rq raw end /\
+  reply_of_raw false rq raw =
+    match raw with _ :: (_ :: _) as body => inflate_response rq body | _ => Reject RDM_INVALID_RESPONSE end /\
+  (forall rest, raw = START_CODE :: rest -> 23 <= len raw ->
+     reply_of_raw true rq raw = Reject RDM_WRONG_SUB_START_CODE).
+Proof.
+  intros raw rq. destruct (mk_frame_spec raw) as [A B].
+  split; [exact A|]. split; [exact B|].
+  split; [exact (reply_of_raw_prepend rq raw)|].
+  split; [exact (reply_of_raw_noprepend rq raw)|].
+  intros rest E Hl. subst raw. exact (reply_of_raw_prepend_cc rq rest Hl).
+Qed.
+Print Assumptions c05_frame_prepend.
+
+(* RDMReply::FromFrame accepts a frame only if the bytes after the (unchecked, skipped) start code
+   are accepted by RDMResponse::InflateFromData — so c05_accept's conditions hold for them — and a
+   frame built with prepend_start_code is accepted only if the SUPPLIED bytes begin with the
+   sub-start code. *)
+Theorem c05_frame_accept : forall fr raw rq c,
+  (from_frame rq fr = Ok c -> exists s body, fr = s :: body /\ inflate_response rq body = Ok c) /\
+  (bytes_ok raw = true -> len raw < 2^32 -> reply_of_raw true rq raw = Ok c ->
+   inflate_response rq raw = Ok c /\ rd raw 0 = Some SUB_START_CODE).
+Proof.
+  intros fr raw rq c. split.
+  - exact (from_frame_ok rq fr c).
+  - intros Hb Hl. change (2^32) with 4294967296 in Hl. exact (reply_of_raw_prepend_ok rq raw c Hb Hl).
+Qed.
+Print Assumptions c05_frame_accept.
+
+(* The round trip, stated for each decoder entry point separately: every constructible command (any
+   UIDs, transaction number, port id / response type, message count, sub-device, ANY PID, 0-231
+   parameter bytes) serialises (Pack; PackWithStartCode gives the same bytes behind a start code)
+   to a frame that decodes to exactly the same command through EVERY entry point that handles its
+   class: RDMRequest::InflateFromData and RDMCommand::Inflate for GET/SET/DISCOVER requests,
+   additionally RDMDiscoveryRequest::InflateFromData for DISCOVER requests;
+   RDMDiscoveryResponse::InflateFromData and Inflate for DISCOVER responses (any response type);
+   RDMResponse::InflateFromData, RDMReply::FromFrame (frame given with its start code, or built by
+   RDMFrame with prepend_start_code) and Inflate for responses with a legal response type. *)
+Theorem c05_roundtrip_all_entry_points : forall c,
+  wf_cmd c = true ->
+  exists bs, pack c = Some bs /\ len bs = 25 + len (c_data c) /\
+    pack_with_start_code default_opts [] c = (true, START_CODE :: bs) /\
+    (c_cc c = GET_COMMAND \/ c_cc c = SET_COMMAND ->
+       inflate_request bs = Ok c /\ inflate bs = Ok c) /\
+    (c_cc c = DISCOVER_COMMAND ->
+       inflate_request bs = Ok c /\ inflate_disc_request bs = Ok c /\ inflate bs = Ok c) /\
+    (c_cc c = DISCOVER_COMMAND_RESPONSE ->
+       inflate_disc_response bs = Ok c /\ inflate bs = Ok c) /\
+    (c_cc c = GET_COMMAND_RESPONSE \/ c_cc c = SET_COMMAND_RESPONSE \/ c_cc c = DISCOVER_COMMAND_RESPONSE ->
+     c_port c <= ACK_OVERFLOW ->
+       inflate_response None bs = Ok c /\ from_frame None (START_CODE :: bs) = Ok c /\
+       reply_of_raw true None bs = Ok c /\ inflate bs = Ok c).
+Proof. exact roundtrip_all_entry_points. Qed.
+Print Assumptions c05_roundtrip_all_entry_points.
+
+(* ... and what every entry point does with the serialised form of ANY constructible command: the
+   decision depends on the command class (and, for RDMResponse::InflateFromData, the response type)
+   only — never on the PID or the parameter length. *)
+Theorem c05_entry_point_class : forall c,
+  wf_cmd c = true ->
+  exists bs, pack c = Some bs /\ len bs = 25 + len (c_data c) /\
+    inflate_request bs = (if is_request_cc (c_cc c) then Ok c else Reject NOSTATUS) /\
+    inflate_disc_request bs = (if c_cc c =? DISCOVER_COMMAND then Ok c else Reject NOSTATUS) /\
+    inflate_disc_response bs = (if c_cc c =? DISCOVER_COMMAND_RESPONSE then Ok c else Reject NOSTATUS) /\
+    inflate_response None bs =
+      (if ACK_OVERFLOW <? c_port c then Reject RDM_INVALID_RESPONSE_TYPE
+       else if is_response_cc (c_cc c) then Ok c else Reject RDM_INVALID_COMMAND_CLASS) /\
+    (forall rq, from_frame rq (START_CODE :: bs) = inflate_response rq bs) /\
+    (forall rq, reply_of_raw true rq bs = inflate_response rq bs) /\
+    inflate bs =
+      (if (c_cc c =? GET_COMMAND) || (c_cc c =? SET_COMMAND) || (c_cc c =? DISCOVER_COMMAND) ||
+          (c_cc c =? DISCOVER_COMMAND_RESPONSE) then Ok c
+       else if (c_cc c =? GET_COMMAND_RESPONSE) || (c_cc c =? SET_COMMAND_RESPONSE) then
+         (if ACK_OVERFLOW <? c_port c then Reject RDM_INVALID_RESPONSE_TYPE else Ok c)
+       else Reject NOSTATUS).
+Proof. exact roundtrip_entry_points. Qed.
+Print Assumptions c05_entry_point_class.
+
+(* A response built for a request by GetResponseWithPid (hence GetResponseFromData, which passes the
+   request's PID) with a legal response type and 0-231 parameter bytes serialises to a frame that is
+   matched to that very request by RDMResponse::InflateFromData and by RDMReply::FromFrame. *)
+Theorem c05_built_response_matches : forall rq pid data type mc r,
+  wf_cmd rq = true -> pid < 65536 -> type <= ACK_OVERFLOW -> mc < 256 ->
+  bytes_ok data = true -> len data <= MAX_PARAM_DATA_LENGTH ->
+  response_with_pid rq pid data type mc = Some r ->
+  exists bs, pack r = Some bs /\ inflate_response (Some rq) bs = Ok r /\
+             from_frame (Some rq) (START_CODE :: bs) = Ok r /\
+             reply_of_raw true (Some rq) bs = Ok r.
+Proof. exact built_response_matches. Qed.
+Print Assumptions c05_built_response_matches.
+
+(* NackWithReason(request, reason): a NACK_REASON response carrying the 16-bit reason big-endian,
+   for the request's PID, matched to the request. *)
+Theorem c05_nack_matches : forall rq reason mc r,
+  wf_cmd rq = true -> mc < 256 ->
+  nack_request rq reason mc = Some r ->
+  c_port r = RDM_NACK_REASON /\ c_data r = be_bytes 2 (u16 reason) /\ c_pid r = c_pid rq /\
+  exists bs, pack r = Some bs /\ inflate_response (Some rq) bs = Ok r.
+Proof. exact nack_request_matches. Qed.
+Print Assumptions c05_nack_matches.
+
+(* The three standard discovery requests (NewDiscoveryUniqueBranchRequest, NewMuteRequest,
+   NewUnMuteRequest; PIDs 1, 2, 3 with 12 / 0 / 0 parameter bytes) serialise to frames that decode to
+   the same command through RDMCommand::Inflate, RDMRequest::InflateFromData and
+   RDMDiscoveryRequest::InflateFromData. *)
+Theorem c05_discovery_builders_roundtrip : forall src dst lower upper tn port c,
+  src < 2^48 -> dst < 2^48 -> tn < 256 -> port < 256 ->
+  c = new_dub src lower upper tn port \/ c = new_mute src dst tn port \/ c = new_unmute src dst tn port ->
+  exists bs, pack c = Some bs /\
+    inflate bs = Ok c /\ inflate_request bs = Ok c /\ inflate_disc_request bs = Ok c.
+Proof. exact new_disc_roundtrip. Qed.
+Print Assumptions c05_discovery_builders_roundtrip.
+
 (* ---- non-vacuity: concrete instances meeting the hypotheses *)
 Definition ex_cmd : cmd :=
   {| c_dst := 0x7a7000000001; c_src := 0x00010000002a; c_tn := 7; c_port := 1; c_mc := 0;
@@ -167,3 +290,30 @@ Example ex_match_mismatch :
                  c_sub := 0; c_cc := 32; c_pid := 96; c_data := [] |}) bs = Reject RDM_TRANSACTION_MISMATCH
   | None => False end.
 Proof. vm_compute. reflexivity. Qed.
+
+(* round 2 examples: a DISCOVER request for DISC_MUTE with two parameter bytes (not the E1.20 size)
+   round-trips through all three request entry points; supplied bytes beginning with 0xCC are not
+   accepted through a prepend_start_code frame, the same bytes without the leading 0xCC are. *)
+Definition ex_disc : cmd :=
+  {| c_dst := 0x7a7000000001; c_src := 0x00010000002a; c_tn := 9; c_port := 1; c_mc := 0;
+     c_sub := 0; c_cc := 16; c_pid := 2; c_data := [7; 8] |}.
+Example ex_disc_wf : wf_cmd ex_disc = true. Proof. reflexivity. Qed.
+Example ex_disc_rt :
+  match pack ex_disc with
+  | Some bs => inflate bs = Ok ex_disc /\ inflate_request bs = Ok ex_disc /\ inflate_disc_request bs = Ok ex_disc
+  | None => False end.
+Proof. vm_compute. repeat split; reflexivity. Qed.
+Definition ex_resp : cmd :=
+  {| c_dst := 0x00010000002a; c_src := 0x7a7000000001; c_tn := 9; c_port := 0; c_mc := 0;
+     c_sub := 0; c_cc := 33; c_pid := 0x00f0; c_data := [1] |}.
+Example ex_frame_cc :
+  match pack ex_resp with
+  | Some bs => reply_of_raw true None bs = Ok ex_resp /\
+               reply_of_raw true None (START_CODE :: bs) = Reject RDM_WRONG_SUB_START_CODE /\
+               reply_of_raw false None (START_CODE :: bs) = Ok ex_resp
+  | None => False end.
+Proof. vm_compute. repeat split; reflexivity. Qed.
+Example ex_built :
+  response_from_data {| c_dst := 0x7a7000000001; c_src := 0x00010000002a; c_tn := 9; c_port := 1; c_mc := 0;
+     c_sub := 0; c_cc := 32; c_pid := 0x00f0; c_data := [] |} [1] RDM_ACK 0 = Some ex_resp.
+Proof. reflexivity. Qed.
